@@ -254,7 +254,14 @@ def b_reversed_seq(ex, st, node, args, kw):
     return ex.rev(st, x)
 
 
+def b_Ballot(ex, st, node, args, kw):
+    """Ballot(...) in the contract language (specs may use the two data classes)"""
+    from .calls import mk_ballot
+    return mk_ballot(ex, args, kw, st, node)
+
+
 BUILTINS = {
+    "Ballot": b_Ballot,
     "reversed_seq": b_reversed_seq,
     "dsum": b_dsum,
     "implies": b_implies, "floor": b_floor, "div": b_div,
